@@ -764,6 +764,16 @@ func (o decOpt) primary(l layout) bool {
 	return o.Name == "priv.Decrypt(plain c1c3c2)"
 }
 
+// own returns a private copy of b whose capacity equals its length: Go lets a
+// callee re-slice beyond len up to cap without any fault, so a buffer with
+// allocator slack would hide an out-of-range read (a missing length guard)
+// behind stale bytes; with cap == len it panics deterministically.
+func own(b []byte) []byte {
+	c := make([]byte, len(b))
+	copy(c, b)
+	return c[:len(c):len(c)]
+}
+
 // call runs f and converts a panic into a description.
 func call(f func() ([]byte, error)) (out []byte, err error, panicked string) {
 	defer func() {
@@ -781,7 +791,7 @@ func call(f func() ([]byte, error)) (out []byte, err error, panicked string) {
 // wrong splicing order is a different (C2, C3) and must be refused.
 func decryptAll(priv *sm2.PrivateKey, ct []byte, l layout, msg []byte) error {
 	for _, o := range decOpts {
-		in := append([]byte{}, ct...)
+		in := own(ct)
 		pt, err, pan := call(func() ([]byte, error) { return o.Run(priv, in) })
 		if pan != "" {
 			return fmt.Errorf("%s panicked on a valid %v ciphertext: %s (ct=%s)", o.Name, l, pan, h.Hex(ct))
@@ -809,7 +819,7 @@ func decryptAll(priv *sm2.PrivateKey, ct []byte, l layout, msg []byte) error {
 // matchingDecrypt decrypts through PrivateKey.Decrypt with the option meant
 // for layout l.
 func matchingDecrypt(priv *sm2.PrivateKey, ct []byte, l layout) ([]byte, error, string) {
-	in := append([]byte{}, ct...)
+	in := own(ct)
 	return call(func() ([]byte, error) {
 		switch {
 		case l.ASN1:
